@@ -1,4 +1,7 @@
 import Driver.Sexp
+import Driver.C04
+import Driver.C05
+import Driver.C07
 import Driver.C08
 import Driver.C10
 import Driver.C11
@@ -7,6 +10,8 @@ import Driver.C13
 import Driver.C14
 import Driver.C15
 import Driver.C16
+import Driver.C17
+import Driver.C18
 import Driver.C19
 import Driver.C20
 open Sx
@@ -17,6 +22,9 @@ def echo (args : List Sx) : Option Sx := some (.list args)
 /-- every `Driver/Cxx.lean` contributes a `handle : String → List Sx → Option Sx` -/
 def dispatch (op : String) (args : List Sx) : Option Sx :=
   if op == "echo" then echo args
+  else if op.startsWith "c04." then C04.handle op args
+  else if op.startsWith "c05." then C05.handle op args
+  else if op.startsWith "c07." then C07.handle op args
   else if op.startsWith "c08." then C08.handle op args
   else if op.startsWith "c10." then C10.handle op args
   else if op.startsWith "c11." then C11.handle op args
@@ -25,6 +33,8 @@ def dispatch (op : String) (args : List Sx) : Option Sx :=
   else if op.startsWith "c14." then C14.handle op args
   else if op.startsWith "c15." then C15.handle op args
   else if op.startsWith "c16." then C16.handle op args
+  else if op.startsWith "c17." then C17.handle op args
+  else if op.startsWith "c18." then C18.handle op args
   else if op.startsWith "c19." then C19.handle op args
   else if op.startsWith "c20." then C20.handle op args
   else none
